@@ -16,7 +16,7 @@ def parse_case(case):
         f = s.split(',')
         k, t = f[0], int(f[1])
         if k in ('T', 'W', 'L', 'U'): ops.append((k, t, None, int(f[2]), int(f[3])))
-        elif k == 'H': ops.append((k, t, int(f[2]), None, None))
+        elif k in ('H', 'I'): ops.append((k, t, int(f[2]), None, None))
         elif k == 'A': ops.append((k, t, None if f[2] == '-' else int(f[2]), int(f[3]), int(f[4])))
         else: raise ValueError(s)
     return ops
@@ -107,6 +107,8 @@ def _judge(case, out):
                 if k == 'U':
                     for i in [i for i, (ho, hl) in held.items() if o <= ho and ho + hl <= o + l]:
                         del held[i]
+                elif k == 'I':
+                    if (e[2] == 0) != (hid in blocked): return ('protocol', '%s: interrupt returned %d but target blocked=%s' % (where, e[2], hid in blocked))
                 elif k == 'H':
                     if hid not in held: return ('leak', '%s: unlock(handle #%d) executed on a node the user view had already released' % (where, hid))
                     del held[hid]
@@ -205,7 +207,7 @@ class Check(DiffCheck):
             'photon thread) run on the real RangeLock inside photon on one vCPU; after every op the completion events (return values, '
             'in order) and m_index with the threads parked on every node are compared with the model. corpus; ALL sequences of <=3 ops '
             'over offsets 0..3 x lengths 0..2 (51-op alphabet: T/L/U x 12 ranges, unlock(handle 0..2), adjust(#0, 12 ranges)), ALL of 4 ops over a '
-            '17-op alphabet (thorough: 24-op, plus ALL of 4 ops over the 39-op alphabet without adjust), ALL of 5 over a 9-op alphabet, ALL of '
+            '19-op alphabet (thorough: 26-op, plus ALL of 4 ops over the 39-op alphabet without adjust), ALL of 5 over a 9-op alphabet, ALL of '
             '<=2 ops over the 64-bit edge universe {0,1,2^63,2^64-2,2^64-1} (thorough: 3 ops over a 38-op edge alphabet); PRNG: 4..14 ops, '
             '2..5 threads, offsets/lengths 0..6, all three lock kinds, stale handles, busy threads, and edge-value sequences. '
             'non-trivial = two requested ranges intersect, touch, are empty, or saturate')
@@ -237,6 +239,7 @@ class Check(DiffCheck):
             if k in LOCKK: out.append('%s,%d,%d,%d' % (k, nt, op[1], op[2])); nt += 1
             elif k == 'U': out.append('U,0,%d,%d' % (op[1], op[2]))
             elif k == 'H': out.append('H,0,%d' % op[1])
+            elif k == 'I': out.append('I,0,%d' % op[1])
             elif k == 'A': out.append('A,0,%s,%d,%d' % (op[1], op[2], op[3]))
         return ';'.join(out)
 
@@ -253,13 +256,13 @@ class Check(DiffCheck):
             for s in itertools.product(AA, repeat=n): cs.append(self._seq(s))
         # E-B: all sequences of 4 ops over a smaller alphabet
         RB = [(0, 2), (1, 2), (2, 1), (1, 0), (0, 4), (3, 1)]
-        AB = [(k, o, l) for k in ('T', 'L', 'U') for (o, l) in RB] + [('H', 0), ('H', 1)] + [('A', '0', o, l) for (o, l) in [(0, 1), (1, 2), (0, 4), (2, 0)]]
+        AB = [(k, o, l) for k in ('T', 'L', 'U') for (o, l) in RB] + [('H', 0), ('H', 1), ('I', 2), ('I', 3)] + [('A', '0', o, l) for (o, l) in [(0, 1), (1, 2), (0, 4), (2, 0)]]
         if thorough:
             for s in itertools.product(AB, repeat=4): cs.append(self._seq(s))
             AA4 = [a for a in AA if a[0] != 'A']
             for s in itertools.product(AA4, repeat=4): cs.append(self._seq(s))
         else:
-            AB2 = [(k, o, l) for k in ('L', 'U') for (o, l) in RB[:5]] + [('T', 1, 2), ('T', 1, 0), ('H', 0), ('H', 1), ('A', '0', 0, 1), ('A', '0', 1, 2), ('A', '0', 0, 4)]
+            AB2 = [(k, o, l) for k in ('L', 'U') for (o, l) in RB[:5]] + [('T', 1, 2), ('T', 1, 0), ('H', 0), ('H', 1), ('A', '0', 0, 1), ('A', '0', 1, 2), ('A', '0', 0, 4), ('I', 2), ('I', 3)]
             for s in itertools.product(AB2, repeat=4): cs.append(self._seq(s))
         # E-C: all sequences of 5 ops over a tiny alphabet
         AC = [('L', 0, 2), ('L', 1, 2), ('L', 2, 1), ('U', 0, 2), ('U', 1, 2), ('U', 2, 1), ('H', 0), ('T', 1, 0), ('U', 1, 0)]
@@ -317,8 +320,10 @@ class Check(DiffCheck):
                     bo, bl = rng.choice(mine); o = max(0, bo + rng.choice((-1, 0, 0, 1))); l = max(0, bl + rng.choice((-1, 0, 1, 1)))
                     o = min(o, W - 1); l = min(l, W - 1)
                 ops.append('A,%d,%d,%d,%d' % (t, rng.randrange(0, nacq + 1), o, l))
-            else:
+            elif x < 0.985:
                 o, l = rrange(); ops.append('A,%d,-,%d,%d' % (t, o, l))
+            else:
+                ops.append('I,%d,%d' % (t, rng.randrange(nthreads)))
         return ';'.join(ops)
 
     # ------------------------------------------------------------ classification ----
@@ -354,7 +359,7 @@ class Check(DiffCheck):
         """F4: some requested range has offset+length > 2^64-1 (end() saturates).
         F3: a zero-length range requested at p and a later unlock(o,l) with p == o or p == o+l, and the failure is
             'm_index keeps a zero-length node the callers released' (or its consequences).
-        F20: a thread is parked, without a conflicting holder, on a node that adjust_range changed while it waited."""
+        (F20 = 'adjust-no-wake' is a repaired finding and is NOT a known class: it is reported as a VIOLATION.)"""
         try: f3, f4, adj = syntactic_classes(case)
         except Exception: return None
         if f4: return 'F4'
@@ -364,7 +369,7 @@ class Check(DiffCheck):
             except Exception: j = None
         kind = j[0] if j else None
         if f3 and (kind is None or kind in ('leak0',)): return 'F3'
-        if adj and kind == 'adjust-no-wake': return 'F20'
+        # F20 (adjust_range without notify; oracle kind 'adjust-no-wake') is repaired in /repo: a fixed finding suppresses nothing
         return None
 
     def neighbours(self, case, rng):
